@@ -160,3 +160,7 @@ func F64bits(f float64) uint64 { return math.Float64bits(f) }
 // Visited: key k has been produced by the latest range loop over map m
 // (ghost state of the verifier; meaningless at run time).
 func Visited[K comparable, V any](m map[K]V, k K) bool { return true }
+
+// Fresh: the map, slice or pointer x was allocated during the call that the
+// contract describes (verifier only; at run time it cannot be observed).
+func Fresh[T any](x T) bool { return true }
